@@ -47,6 +47,7 @@ type ppuModel struct {
 	reqKind  map[*ssa.Function]string
 	enterFn  map[*ssa.Function]string // EnterMode2 / ExitMode2 by effect on corrupt
 	steps    map[ppuState]*ppuStep
+	scan     []scanFact
 }
 
 var ppuModelCache = map[*Ctx]*ppuModel{}
@@ -310,4 +311,80 @@ func (m *ppuModel) step(s ppuState) *ppuStep {
 
 func (s ppuState) String() string {
 	return fmt.Sprintf("ticks=%d mode=%d LY=%d firstLine=%v", s.T, s.Mode, s.LY, s.FirstLine)
+}
+
+// scanFact is what the PPU step does to the OAM scan state when it processes one mode-2 tick.
+type scanFact struct {
+	From       ppuState
+	OK         bool    // the step returns
+	Entries    []int64 // indices of the per-line table (boolean array of the PPU) stored, -1 if not constant
+	OAMIdx     []int64 // OAM array elements loaded, -1 if not constant
+	LastAccess *ai.Int // value of the OAM object's "last PPU access" cell afterwards (nil if the cell does not exist)
+	LastStored bool    // ... and whether this step stored it on every path (marker technique)
+}
+
+// scanFacts evaluates the real PPU step (scan routines not skipped) from every schedule state whose tick is
+// processed in mode 2 on a visible line; registers, OAM and VRAM symbolic.  Cached per model.
+func (m *ppuModel) scanFacts() []scanFact {
+	if m.scan != nil {
+		return m.scan
+	}
+	c := m.c
+	it := c.W.It
+	hasLast := ai.LeafTypeAt(m.OAM.T, ".ppuLastAccess") != nil
+	for _, s0 := range ppuInvariantStates() {
+		if docMode(s0.T) != 2 || s0.T/114 > 143 {
+			continue
+		}
+		st := it.StateOn(c.W.Generic)
+		setI := func(path string, v int64) {
+			w, sg := ai.TypeShape(ai.LeafTypeAt(m.PPU.T, path))
+			st.SetCell(m.PPU, path, ai.NewConstInt(w, sg, v))
+		}
+		setI(".ticks", s0.T)
+		setI(".mode", s0.Mode)
+		setI(".ly", s0.LY)
+		st.SetCell(m.PPU, ".firstLine", ai.NewConstBool(s0.FirstLine))
+		st.SetCell(m.PPU, m.Enabled, ai.NewConstBool(true))
+		if hasLast {
+			// marker: a value the PPU never uses, so that "not stored on some path" shows in the join
+			st.SetCell(m.OAM, ".ppuLastAccess", ai.NewConstInt(16, false, 0))
+		}
+		f := scanFact{From: s0}
+		it.Hooks = ai.Hooks{
+			Store: func(_ *ai.State, _ ssa.Instruction, p *ai.Ptr, keys []ai.CellKey, v ai.Value, _ bool) {
+				if _, isBool := v.(*ai.Bool); !isBool {
+					return
+				}
+				for _, k := range keys {
+					if i := strings.LastIndex(k.Path, "["); k.Obj == m.PPU.ID && i >= 0 {
+						var idx int64 = -1
+						fmt.Sscanf(k.Path[i+1:], "%d", &idx)
+						if strings.Contains(k.Path, "*") {
+							idx = -1
+						}
+						f.Entries = append(f.Entries, idx)
+					}
+				}
+			},
+			Elem: func(_ *ai.State, _ ssa.Instruction, o *ai.Object, path string, idx *ai.Int, _ int64) {
+				if o == m.OAM && idx != nil {
+					if cv, isc := constOf(idx); isc {
+						f.OAMIdx = append(f.OAMIdx, cv)
+					} else {
+						f.OAMIdx = append(f.OAMIdx, -1)
+					}
+				}
+			},
+		}
+		_, post := it.CallFunction(st, m.StepFn, []ai.Value{ptrTo(m.PPU)}, nil)
+		it.Hooks = ai.Hooks{}
+		f.OK = post != nil
+		if hasLast && post != nil {
+			f.LastAccess = c.cellInt(post, m.OAM, ".ppuLastAccess")
+			f.LastStored = f.LastAccess != nil && f.LastAccess.Lo > 0
+		}
+		m.scan = append(m.scan, f)
+	}
+	return m.scan
 }
